@@ -193,7 +193,7 @@ DStart:
     lg := TRUE;
     obs := LogO(obs, Ev("c", ThOf(self), fr,
                         PName(Node(to.n).pid, Cardinality({q \in 1..Len(pi) : pi[q].pup = Node(to.n).pid}) + 1),
-                        "Sub", 0));
+                        "Sub", Node(to.n).pid));
     pi := Append(pi, [pup |-> Node(to.n).pid,
                       inst |-> Cardinality({q \in 1..Len(pi) : pi[q].pup = Node(to.n).pid}) + 1,
                       node |-> to.n, sink |-> m.tb, greeted |-> FALSE, pending |-> FALSE,
@@ -1368,7 +1368,7 @@ DStart(self) == /\ pc[self] = "DStart"
                            /\ lg' = [lg EXCEPT ![self] = TRUE]
                            /\ obs' = LogO(obs, Ev("c", ThOf(self), fr[self],
                                                   PName(Node(to[self].n).pid, Cardinality({q \in 1..Len(pi) : pi[q].pup = Node(to[self].n).pid}) + 1),
-                                                  "Sub", 0))
+                                                  "Sub", Node(to[self].n).pid))
                            /\ pi' = Append(pi, [pup |-> Node(to[self].n).pid,
                                                 inst |-> Cardinality({q \in 1..Len(pi) : pi[q].pup = Node(to[self].n).pid}) + 1,
                                                 node |-> to[self].n, sink |-> m[self].tb, greeted |-> FALSE, pending |-> FALSE,
